@@ -902,10 +902,15 @@ def mon_c08(sc, res):
         # a connection that authenticates in this step changes its identity somewhere inside the step: what it is sent and what
         # is routed for it in this step is not attributed to either identity
         changing = set()
+        changing_paths = set()   # elements added or removed in this step: their declaration is not the same for the whole step
         for c, top in reqs:
             for r in flatten_requests(top)[0]:
                 if cget(r, b"method") == b"authenticate":
                     changing.add(c)
+                elif cget(r, b"method") in (b"add", b"remove") and is_obj(cget(r, b"params")):
+                    changing_paths.add(cget(cget(r, b"params"), b"path"))
+        for c in itr.closed[si]:
+            changing_paths.update(p_ for p_, dd_ in decl.items() if dd_ is not None and dd_.get("owner") == c)
         if auth:
             for d, ok, v in sends:
                 if isinstance(v, tuple) and v and v[0] == "unparsable":
@@ -919,20 +924,20 @@ def mon_c08(sc, res):
                 params = cget(v, b"params")
                 if cget(v, b"method") is not None and is_obj(params) and cget(params, b"event") is not None and cget(v, b"id") is None:
                     path = cget(params, b"path")
-                    dd = decl.get(path)
+                    dd = decl.get(path) if path not in changing_paths else None
                     if dd is not None and not (dd["fetch"] & mine["fetch"]):
                         fails.append("step %d: c%d (user groups %s) was notified about %s whose fetch groups are %s" % (
                             si, d, sorted(mine["fetch"]), show(path), sorted(dd["fetch"])))
                 elif is_response(v) and isinstance(cget(v, b"result"), list):
                     for ent in cget(v, b"result"):
                         path = cget(ent, b"path") if is_obj(ent) else None
-                        dd = decl.get(path)
+                        dd = decl.get(path) if path not in changing_paths else None
                         if dd is not None and not (dd["fetch"] & mine["fetch"]):
                             fails.append("step %d: get result for c%d lists %s without a shared fetch group" % (si, d, show(path)))
                 elif cget(v, b"method") is not None and isinstance(cget(v, b"id"), bytes) and isinstance(cget(v, b"method"), bytes):
                     # routed request delivered to the owner d: find the caller among this step's set/call requests
                     path = cget(v, b"method")
-                    dd = decl.get(path)
+                    dd = decl.get(path) if path not in changing_paths else None
                     if dd is None:
                         continue
                     callers = []
@@ -1174,6 +1179,7 @@ def mon_c14(sc, res):
                     elem_at[id(r)] = elem_timeout.get(cget(params, b"path"), None)
         if len(arms) != len(routed) and not any(not ok for d, ok, v in sends):
             fails.append("step %d: %d timers armed for %d routed requests" % (si, len(arms), len(routed)))
+        per_path = {}
         for i, (d, v) in enumerate(routed):
             if i >= len(arms):
                 break
@@ -1194,8 +1200,21 @@ def mon_c14(sc, res):
                 else:
                     want, src = elem_at.get(id(r), elem_timeout.get(path, None)), "element/default"
                 timer_of[arms[i][1]] = (c, cget(r, b"id"))
-            if want is not None and abs(arms[i][2] - want) > 1:
-                fails.append("step %d: request on %s armed %d ns, expected %d ns (%s)" % (si, show(path), arms[i][2], want, src))
+            if want is not None:
+                per_path.setdefault(path, []).append((arms[i][2], want, src))
+            else:
+                per_path.setdefault(path, []).append((arms[i][2], None, src))
+        # several routed requests on one element in one step cannot always be told apart (same id used twice, ids that are
+        # prefixes of each other): per element the armed values are compared with the expected ones as multisets
+        for path, lst in per_path.items():
+            if any(w is None for _, w, _ in lst):
+                continue
+            got_v, want_v = sorted(a for a, _, _ in lst), sorted(w for _, w, _ in lst)
+            for a, w in zip(got_v, want_v):
+                if abs(a - w) > 1:
+                    srcs = "/".join(sorted(set(x for _, _, x in lst)))
+                    fails.append("step %d: request on %s armed %d ns, expected %d ns (%s)" % (si, show(path), a, w, srcs))
+                    break
         # a request whose timer fired and was dispatched in this step has its final answer by the end of the step
         for d, ok, v in sends:
             if is_response(v) and is_id(cget(v, b"id")):
